@@ -25,7 +25,7 @@ from concurrent.futures import ThreadPoolExecutor
 
 from vlib import common
 
-PARSER_VERSION = "10"
+PARSER_VERSION = "11"
 CACHE_DIR = os.path.join(common.VERIF, ".cache", "c06-probes")
 
 # ---------------------------------------------------------------------------------------------
@@ -259,6 +259,8 @@ class X86Sim:
 
     def origin(self, r):
         g, i, w = r
+        if g == "gp" and i == 4:
+            return ("spaddr", self.sp) if self.sp is not None else None
         return self.reg.get((g, i), ("reg", g, i))
 
     def setreg(self, r, org):
@@ -391,9 +393,10 @@ class X86Sim:
             o = self.parse_op(ops[0])
             if self.sp is None:
                 raise Unparsed("push after realign")
+            pushed_org = self.origin(o[1]) if o[0] == "r" else None      # `push rsp` stores the value before the decrement
             self.sp -= W
             if o[0] == "r":
-                org = self.origin(o[1])
+                org = pushed_org
                 self.mem[self.sp] = (org, W)
                 if org and org[0] == "reg" and (org[1], org[2]) == (o[1][0], o[1][1]):
                     self.saved.add((org[1], org[2]))
@@ -958,6 +961,10 @@ def analyse_caller(sim, n, sig, W):
                 return int(m.group(1)), org[2]
         return None
 
+    pointed = set()
+    for org in list(c["reg"].values()) + [m[0] for off, m in c["mem"].items() if off >= sp]:
+        if org and org[0] == "spaddr":
+            pointed.add(org[1])
     for (g, i), org in c["reg"].items():
         vk = val_k(org)
         if vk:
@@ -971,6 +978,8 @@ def analyse_caller(sim, n, sig, W):
             continue
         vk = val_k(org)
         if vk:
+            if off in pointed:
+                continue        # copy made for passing by reference; its address is the argument
             locs[vk[0]].append((vk[1], {"k": "stack", "off": off - sp}))
         elif org and org[0] == "spaddr" and org[1] in c["mem"]:
             vk = val_k(c["mem"][org[1]][0])
